@@ -3,6 +3,7 @@
 tier=${1:-quick}; shift
 ids=${@:-C01 C02 C03 C04 C05 C06 C07 C08 C09 C10 C11 C12 C13 C14 C15 C16 C17 C18 C19 C20}
 cd "$(dirname "$0")/.."
+[ -n "$VP_RUN_REPO" ] && export VERIF_REPO=$VP_RUN_REPO
 export GOFLAGS=-mod=mod GOPROXY=off GOSUMDB=off GOTOOLCHAIN=local
 mkdir -p bin && go build -o bin/vcheck ./cmd/vcheck || exit 2
 for c in $ids; do
